@@ -175,3 +175,86 @@ def all_layers_frames(rng, v6_too=True):
         fr.append(net.frame_tcp(s, d, 1234, 80, 77, 99, 0x11))
     fr += [arp_req(SELF4), echo4(PEER4, SELF4), echo6(PEER6, SELF6), ns6(PEER6, SELF6)]
     return fr
+
+
+def patch(frame, off, bs):
+    return frame[:off] + bs + frame[off + len(bs):]
+
+
+def hostile_requests(rng):
+    """Requests that elicit replies although their OWN header fields lie or are unusual: wrong / zero checksums at
+    every layer, length fields that disagree with the frame (Ethernet padding, short totals), IPv4 options, TTL / hop
+    limit 0, 1, 255, TOS / traffic class / flow label / fragment bits set, TCP options, window 0, neighbour
+    solicitations from the unspecified address (duplicate address detection) and from link-local sources. Nothing of
+    the reply may be derived from such a field without recomputation."""
+    fr = []
+    s4, d4, s6, d6 = PEER4, SELF4, PEER6, SELF6
+    bad = lambda c: [b"\0\0", b"\xff\xff", struct.pack("!H", (c + 1) & 0xFFFF), struct.pack("!H", c ^ 0x8001),
+                     struct.pack("!H", rng.randrange(65536))]
+    datas = [b"", b"a", b"abcdefgh", bytes(range(33)), bytes(200)]
+    # ICMP echo, both versions: checksum field of the request wrong
+    for data in datas:
+        e4, e6 = echo4(s4, d4, data=data), echo6(s6, d6, data=data)
+        for f, off in ((e4, 14 + 20 + 2), (e6, 14 + 40 + 2)):
+            c = struct.unpack("!H", f[off:off + 2])[0]
+            for b in bad(c):
+                fr.append(patch(f, off, b))
+    # neighbour solicitations: unspecified / link-local source, unicast destination, wrong checksum, hop limits
+    for src in ("::", "fe80::1", s6):
+        for dst in (None, d6, "ff02::1"):
+            f = ns6(src, d6, dst=dst, opts=(b"" if src == "::" else None),
+                         mac_dst=(net.MAC_SELF if dst == d6 else None if dst is None else bytes.fromhex("333300000001")))
+            fr.append(f)
+            fr.append(patch(f, 14 + 40 + 2, b"\0\0"))
+    # UDP application requests: checksum zero / wrong, length field lies, over both versions
+    for payload in (dns_query(), b"SSH-2.0-x\r\n", stun_req(), rpc_call(xid=0xa1b2c3d4, vers=3, proc=3)):
+        for v6 in (False, True):
+            s, d = addr_pair(v6)
+            l3 = 40 if v6 else 20
+            f = net.frame_udp(s, d, 4321, 111, payload)
+            c = struct.unpack("!H", f[14 + l3 + 6:14 + l3 + 8])[0]
+            for b in bad(c):
+                fr.append(patch(f, 14 + l3 + 6, b))
+            for ln in (0, 7, 8, 8 + len(payload) - 1, 8 + len(payload) + 1, 65535):
+                fr.append(patch(f, 14 + l3 + 4, struct.pack("!H", ln)))
+    # TCP: SYN and data with wrong checksum, options, window 0, urgent pointer
+    for v6 in (False, True):
+        s, d = addr_pair(v6)
+        l3 = 40 if v6 else 20
+        syn = net.frame_tcp(s, d, 40000, 80, 7, 0, 0x02)
+        fr += [patch(syn, 14 + l3 + 16, b"\0\0"), patch(syn, 14 + l3 + 16, b"\x12\x34"), patch(syn, 14 + l3 + 14, b"\0\0"),
+               patch(syn, 14 + l3 + 18, b"\xff\xff")]
+        for doff in (6, 8, 15):
+            fr.append(net.frame_tcp(s, d, 40000 + doff, 80, 7, 0, 0x02, doff=doff, options=b"\x01" * (4 * (doff - 5))))
+        for doff in (5, 7, 15):
+            hs = handshake((5, 6), s, d, 41000 + doff, 80, [http_req()], doff=doff, options=b"\x01" * (4 * (doff - 5)))
+            fr += hs
+            fr.append(patch(hs[-1], 14 + l3 + 16, b"\0\0"))
+    # IPv4 header: checksum wrong, TTL, TOS, id, fragment bits, options, totals that disagree with the frame
+    base4 = [echo4(s4, d4), net.frame_udp(s4, d4, 999, 53, dns_query()), net.frame_tcp(s4, d4, 42000, 22, 1, 0, 0x02)]
+    for f in base4:
+        fr += [patch(f, 14 + 10, b"\0\0"), patch(f, 14 + 10, b"\xab\xcd"), patch(f, 14 + 8, b"\0"), patch(f, 14 + 8, b"\x01"),
+               patch(f, 14 + 8, b"\xff"), patch(f, 14 + 1, b"\xff"), patch(f, 14 + 4, b"\xff\xff"),
+               patch(f, 14 + 6, b"\x20\x00"), patch(f, 14 + 6, b"\x00\x01"), patch(f, 14 + 6, b"\x00\x00"),
+               patch(f, 14 + 6, b"\xff\xff")]
+        for pad in (1, 2, 18, 46):
+            fr.append(f + bytes(pad))                      # Ethernet padding after the IP datagram
+        total = struct.unpack("!H", f[16:18])[0]
+        for t in (total - 1, total + 1, 20, 0, 65535):
+            fr.append(patch(f, 16, struct.pack("!H", t & 0xFFFF)))
+    for ihl in (6, 7, 15):
+        opts = b"\x01" * (4 * (ihl - 5))
+        fr.append(net.eth(net.MAC_SELF, net.MAC_PEER, 0x0800, net.ipv4(s4, d4, 1, net.icmp4(8, 0, b"\x12\x34\0\x01abcd"), ihl=ihl, options=opts)))
+        fr.append(net.eth(net.MAC_SELF, net.MAC_PEER, 0x0800,
+                          net.ipv4(s4, d4, 17, net.udp(net.ip_bytes(s4), net.ip_bytes(d4), 5, 53, dns_query()), ihl=ihl, options=opts)))
+    # IPv6 header: traffic class / flow label, hop limits, payload length shorter than the frame
+    base6 = [echo6(s6, d6), net.frame_udp(s6, d6, 999, 53, b"SSH-2.0-x\r\n"), net.frame_tcp(s6, d6, 42000, 22, 1, 0, 0x02),
+             ns6(s6, d6)]
+    for f in base6:
+        fr += [patch(f, 14, b"\x6f\xff\xff\xff"), patch(f, 14 + 7, b"\0"), patch(f, 14 + 7, b"\x01"), patch(f, 14 + 7, b"\xff")]
+        for pad in (1, 3, 40):
+            fr.append(f + bytes(pad))
+        plen = struct.unpack("!H", f[18:20])[0]
+        for t in (plen - 1, plen + 1, 0, 8):
+            fr.append(patch(f, 18, struct.pack("!H", t & 0xFFFF)))
+    return fr
